@@ -94,9 +94,12 @@ static void run_decoder(int d, const uint8_t* bytes, size_t n) {
             mcf_off(); leak_check(dn, lb, st != CARQUET_OK); free(dict); free(out); }
         break;
     default:
-        for (int ci = 0; ci < 5; ci++) { static const size_t CAP[] = { 0, 1, 8, 70, 70000 }; size_t cap = CAP[ci]; uint8_t* out = mc_exact(NULL, cap); size_t on = 0; lb = mcf_live(); mcf_on(); int st;
+        /* fixed capacities, then capacities around the stream's own decoded size (learnt from the largest run): exact, one short, and 1, 3, 7 bytes of slack */
+        { size_t CAP[10] = { 70000, 0, 1, 8, 70 }; int ncap = 5;
+        for (int ci = 0; ci < ncap; ci++) { size_t cap = CAP[ci]; uint8_t* out = mc_exact(NULL, cap); size_t on = 0; lb = mcf_live(); mcf_on(); int st;
             if (d == DEC_SNAPPY) st = (int)carquet_snappy_decompress(in, n, out, cap, &on); else if (d == DEC_LZ4) st = (int)carquet_lz4_decompress(in, n, out, cap, &on); else if (d == DEC_GZIP) st = carquet_gzip_decompress(in, n, out, cap, &on); else st = carquet_zstd_decompress(in, n, out, cap, &on);
-            mcf_off(); if (st == 0) CHECK_RANGE(dn, on <= cap, "%s capacity=%zu: reported %zu", g_cur, cap, on); leak_check(dn, lb, st != 0); free(out); }
+            mcf_off(); if (st == 0) CHECK_RANGE(dn, on <= cap, "%s capacity=%zu: reported %zu", g_cur, cap, on); leak_check(dn, lb, st != 0); free(out);
+            if (ci == 0 && st == 0 && on > 0 && on < 70000) { CAP[ncap++] = on; CAP[ncap++] = on - 1; CAP[ncap++] = on + 1; CAP[ncap++] = on + 3; CAP[ncap++] = on + 7; mc_count("codec-streams.decoded-at-natural-capacity", 1); } } }
         break;
     }
     free(in);
@@ -117,6 +120,11 @@ static const tok_t TOK_RLE[] = { T("\x00"), T("\x02"), T("\x0e"), T("\x10"), T("
 static const tok_t TOK_DELTA[] = { T("\x80\x01"), T("\x00"), T("\x01"), T("\x04"), T("\x08"), T("\x81\x01"), T("\x05"), T("\x20"), T("\x21"), T("\x3f"), T("\x40"), T("\x41"), T("\xff"), T("\xff\xff\xff\xff\x0f"), T("\xff\xff\xff\xff\xff\xff\xff\xff\xff\x01"), T("\x80"), T("\x00\x00\x00\x00"), T("\x02") };
 static const tok_t TOK_SNAPPY[] = { T("\x00"), T("\x04"), T("\x00\x41"), T("\x0c\x41\x42\x43\x44"), T("\xf0"), T("\xf4\x05"), T("\xf8\x05\x00"), T("\xfc\xff\xff\xff\xff"), T("\x01"), T("\x01\x01"), T("\x1d\x04"), T("\x02"), T("\x02\x01\x00"), T("\xfe\x01\x00"), T("\x03"), T("\x03\x01\x00\x00\x00"), T("\xff\xff\xff\xff\x0f"), T("\x80"), T("\x02\x00\x00"), T("\x05\x00") };
 static const tok_t TOK_LZ4[] = { T("\x00"), T("\x10\x41"), T("\x40\x41\x42\x43\x44"), T("\xf0"), T("\xf0\x00"), T("\xf0\xff"), T("\xf0\xff\xff\x00"), T("\x01"), T("\x0f"), T("\x1f\x41"), T("\x01\x00"), T("\x00\x00"), T("\xff\xff"), T("\x08\x00"), T("\xff"), T("\x00\xff\xff\x00"), T("\x41\x42\x43\x44\x45"), T("\x11\x41\x01\x00") };
+/* LZ4 / Snappy with enough history for far matches (offset >= 8) whose copy ends at the end of the output */
+static const tok_t TOK_LZ4X[] = { T("\x00"), T("\x10\x41"), T("\x40\x41\x42\x43\x44"), T("\xf0"), T("\xf0\x00"), T("\xf0\xff"), T("\xf0\xff\xff\x00"), T("\x01"), T("\x0f"), T("\x1f\x41"), T("\x01\x00"), T("\x00\x00"), T("\xff\xff"), T("\x08\x00"), T("\xff"), T("\x00\xff\xff\x00"), T("\x41\x42\x43\x44\x45"), T("\x11\x41\x01\x00"),
+                                  T("\x80" "ABCDEFGH"), T("\x95" "ABCDEFGHI" "\x09\x00"), T("\x09\x00"), T("\x8f" "ABCDEFGH" "\x08\x00\x00") };
+static const tok_t TOK_SNAPPYX[] = { T("\x00"), T("\x04"), T("\x00\x41"), T("\x0c\x41\x42\x43\x44"), T("\xf0"), T("\xf4\x05"), T("\xf8\x05\x00"), T("\xfc\xff\xff\xff\xff"), T("\x01"), T("\x01\x01"), T("\x1d\x04"), T("\x02"), T("\x02\x01\x00"), T("\xfe\x01\x00"), T("\x03"), T("\x03\x01\x00\x00\x00"), T("\xff\xff\xff\xff\x0f"), T("\x80"), T("\x02\x00\x00"), T("\x05\x00"),
+                                     T("\x0d"), T("\x11"), T("\x1c" "ABCDEFGH"), T("\x05\x08"), T("\x22\x08\x00") };
 static const tok_t TOK_THRIFT[] = { T("\x00"), T("\x15"), T("\x15\x02"), T("\x16\x02"), T("\x18\x01\x41"), T("\x18\xff\xff\xff\xff\x0f"), T("\x19"), T("\x19\x1c"), T("\x19\xfc\xff\xff\xff\x0f"), T("\x19\xf5\xff\xff\xff\x07"), T("\x1c"), T("\x2c"), T("\x1b"), T("\x1b\x01\x55"), T("\x1b\xff\xff\xff\xff\x0f\x88"), T("\x11"), T("\x12"),
                                     T("\x05\x80\x80\x01"), T("\x1d"), T("\x17"), T("\x29\x1c"), T("\x49\x1c"), T("\x48\x00"), T("\x35\x00"), T("\x19\x10"), T("\x19\x00"), T("\x1a\x1b"), T("\xff"), T("\x80\x80\x80\x80\x80\x80\x80\x80\x80\x80\x01"), T("\x2c\x15\x00\x00") };
 static const tok_t TOK_PLAIN[] = { T("\x00\x00\x00\x00"), T("\x01\x00\x00\x00"), T("\x41"), T("\xff\xff\xff\xff"), T("\xff\xff\xff\x7f"), T("\x00\x00\x00\x80"), T("\x05\x00\x00\x00"), T("\x41\x42\x43\x44\x45"), T("\x00"), T("\xff") };
@@ -257,14 +265,14 @@ static void enumerate(void) {
         for (int d = 0; d < NDEC; d++) { if (d == DEC_PLAIN || d == DEC_BSS) continue; uint8_t s[3]; for (int a = 0; a < (1 << 24); a += (d <= DEC_PAGEHDR || d >= DEC_SNAPPY || d == DEC_DELTA32) ? 1 : 7) { s[0] = (uint8_t)a; s[1] = (uint8_t)(a >> 8); s[2] = (uint8_t)(a >> 16); one(d, s, 3, "len3", mc_mix(0x8003, (uint64_t)a)); } }
         g_bw_n = save_b; g_cnt_n = save_c;
     }
-    int TL = mc_thorough() ? 4 : 3;
+    int TL = mc_thorough() ? 5 : 4;
     mc_stage("token-sequences");
     for (int d = DEC_RLE_ALL; d <= DEC_RLE_STREAM; d++) token_sequences(d, TOK_RLE, 16, TL, 0x8100 + (uint64_t)d, d == DEC_RLE_PREFIXED ? "\x06\x00\x00\x00" : NULL, d == DEC_RLE_PREFIXED ? 4 : 0);
     token_sequences(DEC_DICT, TOK_RLE, 16, TL, 0x8180, "\x02", 1); token_sequences(DEC_DICT, TOK_RLE, 16, TL - 1, 0x8181, "\x20", 1);
     token_sequences(DEC_DELTA32, TOK_DELTA, 18, TL + 1, 0x8200, NULL, 0); token_sequences(DEC_DELTA64, TOK_DELTA, 18, TL + 1, 0x8201, NULL, 0);
     token_sequences(DEC_DLBA, TOK_DELTA, 18, TL, 0x8202, NULL, 0); token_sequences(DEC_DBA, TOK_DELTA, 18, TL, 0x8203, NULL, 0);
-    token_sequences(DEC_SNAPPY, TOK_SNAPPY, 20, TL, 0x8300, "\x08", 1); token_sequences(DEC_SNAPPY, TOK_SNAPPY, 20, TL, 0x8301, NULL, 0);
-    token_sequences(DEC_LZ4, TOK_LZ4, 18, TL, 0x8400, NULL, 0);
+    token_sequences(DEC_SNAPPY, TOK_SNAPPYX, 25, TL, 0x8300, "\x08", 1); token_sequences(DEC_SNAPPY, TOK_SNAPPYX, 25, TL, 0x8301, NULL, 0);
+    token_sequences(DEC_LZ4, TOK_LZ4X, 22, TL, 0x8400, NULL, 0);
     token_sequences(DEC_META, TOK_THRIFT, 30, TL, 0x8500, NULL, 0); token_sequences(DEC_PAGEHDR, TOK_THRIFT, 30, TL, 0x8501, NULL, 0);
     token_sequences(DEC_PLAIN, TOK_PLAIN, 10, TL, 0x8600, NULL, 0);
     token_sequences(DEC_GZIP, TOK_LZ4, 18, 2, 0x8700, "\x1f\x8b\x08\x00\x00\x00\x00\x00\x00\x03", 10); token_sequences(DEC_ZSTD, TOK_LZ4, 18, 2, 0x8701, "\x28\xb5\x2f\xfd", 4);
